@@ -80,6 +80,8 @@ def checkPipe (c : Case) : VM Unit := do
   if !chkLines.isEmpty && cc != "ok" then vfail "C06" s!"pipeline-{cc}" s!"build=checked site={csite}"
   vstat "pipe.release-ok" (if rc == "ok" then 1 else 0)
   vstat "c05.networks" 1
+  vstat "c10.networks" 1
+  vstat "c10.tourhyps" (if tourHypsB nw then 1 else 0)
   vstat "c05.depotnodes" (if depotNodesB nw then 1 else 0)
   vstat "pipe.checked-ok" (if cc == "ok" then 1 else 0)
   -- stage snapshots
